@@ -90,7 +90,10 @@ var _ ReadOnlyFactStore = (*SimpleColumnStore)(nil)
 
 // ListPredicates implements a ReadOnlyFactStore method.
 func (s *SimpleColumnStore) ListPredicates() []ast.PredicateSym {
-	return s.predicates
+	// A copy: the order of s.predicates is the order of the file and must not be changed by callers.
+	out := make([]ast.PredicateSym, len(s.predicates))
+	copy(out, s.predicates)
+	return out
 }
 
 // FactCount returns the number of facts for the given predicate as recorded
